@@ -134,6 +134,25 @@ def unit_scope(ctx, align, model_ok):
                                  o[:120], l[4][:120])
 
 
+CLI_PROGRESS = ["0", "1", "2", "quiet"]
+REASSEMBLE = [None, "unchanged", "changed"]
+
+
+def cli_argv(progress, rest, sub="create"):
+    """`torrentfile [-q] create [--prog N] ...`: the progress modes of the command line"""
+    if progress == "quiet":
+        return ["-q", sub] + list(rest)
+    return [sub, "--prog", str(progress)] + list(rest)
+
+
+def route_name(inp, what="TorrentFile(..., "):
+    if inp.get("cli"):
+        return "`torrentfile " + " ".join(cli_argv(inp.get("progress", "0"), ["..."])) + "`"
+    r = {None: ".write()", "unchanged": ".write(); .assemble() again; .write()",
+         "changed": f".write(); payload changed ({inp.get('change')}); .assemble() again; .write()"}[inp.get("reassemble")]
+    return f"{what}progress={inp.get('progress', 0)}){r}"
+
+
 def e2e(ctx):
     n = 40 if ctx.tier == "quick" else 600
     core.use_repo_in_process()
@@ -154,16 +173,29 @@ def e2e_case(ctx, i, tmp):
     root = os.path.join(tmp, f"c{i}", "payload.bin" if single else "payload")
     trees.write_tree(root, tree)
     out = os.path.join(tmp, f"c{i}", "o.torrent")
+    # route: every fourth case through the command line (--prog 0|1|2 and --quiet in turn); the others through the library with
+    # progress 0|1|2 and, in turn, a fresh create / assemble() called AGAIN on the same object with the tree unchanged /
+    # assemble() called again after the payload changed (judged against the tree as it is on disk at that moment)
     via_cli = (i % 4 == 3)
-    desc = {"tree": trees.tree_summary(tree), "piece_length": pl, "cli": via_cli,
+    progress = CLI_PROGRESS[(i // 4) % len(CLI_PROGRESS)] if via_cli else (i // 4) % 3
+    reassemble = None if via_cli else REASSEMBLE[i % 4]
+    before, change, how = tree, False, None
+    if reassemble == "changed":
+        tree, how = trees.mutate_tree(ctx.rng, before, pl)
+
+        def change():
+            trees.rewrite_tree(root, before, tree)
+    desc = {"tree": trees.tree_summary(tree), "piece_length": pl, "cli": via_cli, "progress": progress, "reassemble": reassemble,
             "index": i, "case": f"e2e:{i}", "rng_state": state}
+    if how:
+        desc.update(tree_at_construction=trees.tree_summary(before), change=how)
     try:
         if via_cli:
-            trees.quiet(execute, ["create", "--piece-length", str(pl), "-o", out, "--prog", "0", root])
+            trees.quiet(execute, cli_argv(progress, ["--piece-length", str(pl), "-o", out, root]))
             raw = oracle.read(out)
         else:
-            raw = trees.create("v1", root, out, pl)
-    except Exception as e:  # noqa
+            raw = trees.create("v1", root, out, pl, progress=progress, reassemble=change or bool(reassemble))
+    except (Exception, SystemExit) as e:  # noqa  (argparse leaves with SystemExit)
         ctx.fail("create-raised", desc, "a metafile", f"{type(e).__name__}: {e}")
         return desc
     try:
@@ -528,8 +560,7 @@ def _replay_e2e(ctx, kind, inp, tmp):
     desc = e2e_case(fresh, inp["index"], tmp)
     if desc["tree"] != inp.get("tree") or desc["piece_length"] != inp.get("piece_length"):
         return cannot(kind, f"the generator no longer yields the recorded tree: {desc['tree']} vs {inp.get('tree')}")
-    print(f"{tag} case {inp['index']}: tree {desc['tree']}, piece length {desc['piece_length']}, "
-          + ("`torrentfile create`" if desc["cli"] else "TorrentFile(...).write()"))
+    print(f"{tag} case {inp['index']}: tree {desc['tree']}, piece length {desc['piece_length']}, " + route_name(desc))
     for f in fresh.failures:
         print(f"{tag} VIOLATION {f['kind']}: {f['observed']}")
     if not fresh.failures:
